@@ -138,6 +138,9 @@ def _mk_ctor_guards():
         nu = w.arr("nf", "R", "D")
         w.raises("positional-arguments-refused", (ValueError, TypeError), lambda: F.ConjugateFactor(L, nu))
         w.raises("unknown-keyword-refused", (ValueError, TypeError), lambda: F.ConjugateFactor(Lambda=L, nu=nu, Sigma_typo=L))
+        # one positional mapping (the dict-like form the registration's _from_tuple relies on) == the keyword form
+        a, b = F.ConjugateFactor({"Lambda": L, "nu": nu}), F.ConjugateFactor(Lambda=L, nu=nu)
+        _same_attrs(w, "mapping-form", a, b)
     return ob
 
 
